@@ -1651,6 +1651,294 @@ def run_histories(ctx, B):
                             break
 
 
+# --------------------------------------------------------------------------
+# G. wavelet family cross and argument-form strata
+
+WAVELET_FAMILIES = ('haar', 'db', 'sym', 'coif', 'bior', 'rbio', 'dmey')
+
+
+def run_wavelet_families(ctx, B):
+    """Every discrete PyWavelets family: the adjoint is exposed iff the wavelet is ORTHOGONAL
+    (pywt's own attribute), with the documented OpNotImplementedError otherwise; when exposed with
+    periodization on a dyadic size the adjoint identity holds; inverse(forward) = id always."""
+    import pywt
+    odl = _odl()
+    rng = ctx.rng
+    for fam in WAVELET_FAMILIES:
+        names = pywt.wavelist(fam, kind='discrete')
+        if ctx.quick and len(names) > 3:
+            names = [names[0]] + rng.sample(names[1:], 2)
+        for wv in names:
+            w = pywt.Wavelet(wv)
+            n1 = 64 if w.dec_len <= 32 else 128
+            variants = [((n1,), None, 'pywt_periodic'), ((n1,), None, rng.choice(
+                [m for m in DOCUMENTED_MODES if m != 'pywt_periodic']))]
+            if w.dec_len <= 8:
+                variants.append(((16, 16), rng.choice([None, (0,), (1,)]), 'pywt_periodic'))
+            for shape, axes, mode in variants:
+                sp = odl.uniform_discr([0] * len(shape), [2.0] * len(shape), shape)
+                desc = {'kind': 'wavelet_family', 'wavelet': wv, 'shape': shape, 'axes': axes, 'mode': mode}
+                ctx.case(('wfam', wv, shape, axes, mode))
+                ctx.hit('wavelet-family/' + fam)
+                key = 'wavelet family={} {} mode={} axes={} orthogonal={}'.format(
+                    fam, wv, mode, axes, bool(w.orthogonal))
+                W, e = safe(lambda: odl.trafos.WaveletTransform(sp, wavelet=wv, nlevels=1, pad_mode=mode,
+                                                                axes=axes))
+                if e is not None:
+                    viol(ctx, key + ' constructor', repr(e)[:300], desc)
+                    continue
+                x = sp.element(_big(rng, shape, 'float64') / 4)
+                # ODL cannot reconstruct better than its back-end: 'dmey' is an FIR APPROXIMATION of the
+                # Meyer wavelet and PyWavelets' own waverecn(wavedecn(x)) is off by ~1e-2; the demanded
+                # accuracy is relative to what PyWavelets achieves on the same data
+                with warnings.catch_warnings():
+                    warnings.simplefilter('ignore')
+                    ax_p = axes if axes is not None else tuple(range(len(shape)))
+                    cc = pywt.wavedecn(x.asarray(), wv, mode=DOCUMENTED_MODES[mode], level=1, axes=ax_p)
+                    rr = pywt.waverecn(cc, wv, mode=DOCUMENTED_MODES[mode], axes=ax_p)
+                    rr = rr[tuple(slice(0, k) for k in shape)]
+                backend_err = float(np.max(np.abs(rr - x.asarray())))
+                rtol_w = max(1e-8, 4 * backend_err)
+                rt, e = safe(lambda: W.inverse(W(x)).asarray())
+                if e is not None or not np.max(np.abs(rt - x.asarray())) <= rtol_w:
+                    viol(ctx, key + ' roundtrip', 'W.inverse(W(x)) != x: {!r}'.format(
+                        e if e is not None else float(np.max(np.abs(rt - x.asarray()))))[:300], desc)
+                exposed = {}
+                for nm, get in (('forward', lambda: W.adjoint), ('inverse', lambda: W.inverse.adjoint)):
+                    A, e = safe(get)
+                    exposed[nm] = e is None
+                    if w.orthogonal:
+                        ctx.hit('wavelet-family/adjoint-exposed')
+                        if e is not None:
+                            viol(ctx, key + ' adjoint-' + nm, 'orthogonal wavelet: adjoint must be exposed, '
+                                 'got {!r}'.format(e)[:300], desc)
+                    else:
+                        ctx.hit('wavelet-family/adjoint-not-exposed')
+                        if e is None or type(e).__name__ != 'OpNotImplementedError':
+                            y = W.range.element(_big(rng, (W.range.size,), 'float64') / 4)
+                            extra = ''
+                            if e is None and nm == 'forward':
+                                r2, _ = safe(lambda: (W(x).inner(y), x.inner(A(y))))
+                                extra = '; returned operator: <Wx,y> = {} but <x,W*y> = {}'.format(*r2) if r2 else ''
+                            viol(ctx, key + ' adjoint-' + nm, 'NON-orthogonal wavelet: documented '
+                                 'OpNotImplementedError, got {}{}'.format(
+                                     'an operator' if e is None else repr(e), extra)[:400], desc)
+                if w.orthogonal and mode == 'pywt_periodic' and all(exposed.values()):
+                    y = W.range.element(_big(rng, (W.range.size,), 'float64') / 4)
+                    r, e = safe(lambda: (W(x).inner(y), x.inner(W.adjoint(y)),
+                                         W.inverse.adjoint(x).inner(y), x.inner(W.inverse(y))))
+                    atol_w = max(1e-8, 100 * backend_err) * max(1.0, abs(r[0]) if e is None else 1.0)
+                    if e is not None or abs(r[0] - r[1]) > atol_w or abs(r[2] - r[3]) > atol_w:
+                        viol(ctx, key + ' adjoint-identity', '{!r}'.format(e if e is not None else r)[:300], desc)
+
+                def cb(ans, exposed=dict(exposed), desc=desc):
+                    m = ans == 'ok 1'
+                    if exposed.get('forward') != m or exposed.get('inverse') != m:
+                        ctx.disagree(desc, 'adjoint exposed: {}'.format(exposed), ans)
+                B.add('adjexposed orth={} weights=1'.format(int(bool(w.orthogonal))), cb)
+
+
+def _same_op(a, b, x):
+    """None if operators a, b have equal domain, range (incl. grid) and values on x, else a text"""
+    if a.domain != b.domain:
+        return 'domains differ'
+    if a.range != b.range:
+        return 'ranges differ: {!r} vs {!r}'.format(a.range, b.range)[:300]
+    ya, yb = a(x), b(x)
+    d = float(np.max(np.abs(np.asarray(ya) - np.asarray(yb)))) if np.asarray(ya).size else 0.0
+    if d > 1e-12 * max(1.0, float(np.max(np.abs(np.asarray(ya))))):
+        return 'values differ by {:.3g}'.format(d)
+    return None
+
+
+def axes_forms(canon, ndim):
+    """documented spellings of the canonical axes tuple `canon`"""
+    forms = [('tuple', tuple(canon)), ('list', list(canon)), ('ndarray', np.array(canon)),
+             ('negative', tuple(a - ndim for a in canon))]
+    if len(canon) == 1:
+        a = canon[0]
+        forms += [('int', int(a)), ('np.int64', np.int64(a)), ('negative-int', int(a - ndim))]
+    if list(canon) == list(range(len(canon))):
+        forms.append(('range', range(len(canon))))
+    return forms
+
+
+def run_argforms(ctx, B):
+    odl = _odl()
+    import pywt
+    from odl.trafos import (DiscreteFourierTransform as DFT, DiscreteFourierTransformInverse as IDFT,
+                            FourierTransform as FT, FourierTransformInverse as IFT, WaveletTransform as WT)
+    from odl.trafos.util.ft_utils import reciprocal_grid, dft_preprocess_data, dft_postprocess_data
+    rng = ctx.rng
+    for shape in ((3, 4), (2, 3, 4)):
+        nd = len(shape)
+        spc = odl.uniform_discr([-1.0] * nd, [1.0] * nd, shape, dtype='complex128')
+        spr = odl.uniform_discr([-1.0] * nd, [1.0] * nd, shape)
+        xc = spc.element(_big(rng, shape, 'complex128') / 4)
+        canons = [(0,), (nd - 1,), tuple(range(nd))] + ([(0, nd - 1)] if nd == 3 else [])
+        for canon in canons:
+            forms = axes_forms(canon, nd)
+            if canon == tuple(range(nd)):
+                forms.append(('None', None))
+            for fname, form in forms:
+                for cname, mk in (('DFT', lambda ax: DFT(spc, axes=ax, impl='numpy')),
+                                  ('IDFT', lambda ax: IDFT(spc, axes=ax, impl='numpy')),
+                                  ('FT', lambda ax: FT(spc, axes=ax, impl='numpy')),
+                                  ('IFT', lambda ax: IFT(spc, axes=ax, impl='numpy')),
+                                  ('FT-hc', lambda ax: FT(spr, axes=ax, impl='numpy', halfcomplex=True))):
+                    if cname.startswith(('FT', 'IFT')) and form is None:
+                        continue      # None is documented for the DFT operators only
+                    desc = {'kind': 'argform', 'class': cname, 'shape': shape, 'axes_form': fname,
+                            'axes': repr(form), 'canonical': canon}
+                    ctx.case(('argform-axes', cname, shape, canon, fname))
+                    ctx.hit('argform/{}/axes'.format('dft' if 'DFT' in cname else 'ft'))
+                    res, e = safe(lambda: (mk(form), mk(canon)))
+                    key = 'argument form {} axes={} ({}) canonical={} ndim={}'.format(
+                        cname, form if not isinstance(form, np.ndarray) else list(form), fname, canon, nd)
+                    if e is not None:
+                        viol(ctx, key, 'constructor raised {!r}'.format(e)[:300], desc)
+                        continue
+                    a, b = res
+                    xin = (a.domain.element(_big(rng, a.domain.shape, str(a.domain.dtype)) / 4))
+                    pr, e = safe(lambda: _same_op(a, b, xin))
+                    if e is not None or pr is not None or tuple(a.axes) != tuple(canon):
+                        viol(ctx, key, 'differs from the operator built with axes={}: {} (axes attribute '
+                             '{})'.format(canon, pr if e is None else repr(e), getattr(a, 'axes', None))[:400], desc)
+
+                    def cb(ans, a=a, desc=desc):
+                        if ans != 'ok ' + nl(a.axes):
+                            ctx.disagree(desc, 'axes attribute {}'.format(a.axes), ans)
+                    wire = 'none' if form is None else (str(int(form)) if np.ndim(form) == 0 else nl(list(form)))
+                    if cname == 'DFT':
+                        B.add('normaxes ndim={} axes={}'.format(nd, wire), cb)
+        # shift / halfcomplex / impl / sign forms (FT)
+        for canon_shift in ((True,) * nd, (False,) * nd, tuple(i % 2 == 0 for i in range(nd))):
+            sforms = [('tuple', canon_shift), ('list', list(canon_shift)), ('ndarray', np.array(canon_shift))]
+            if len(set(canon_shift)) == 1:
+                sforms += [('bool', canon_shift[0]), ('np.bool_', np.bool_(canon_shift[0]))]
+            for fname, form in sforms:
+                ctx.case(('argform-shift', shape, canon_shift, fname))
+                ctx.hit('argform/ft/shift')
+                res, e = safe(lambda: (FT(spc, shift=form, impl='numpy'), FT(spc, shift=canon_shift, impl='numpy')))
+                key = 'argument form FT shift={!r} ({}) ndim={}'.format(
+                    form if not isinstance(form, np.ndarray) else list(form), fname, nd)
+                pr = None if e is not None else _same_op(res[0], res[1], xc)
+                if e is not None or pr is not None:
+                    viol(ctx, key, 'differs from shift={}: {}'.format(canon_shift, pr if e is None else repr(e))[:300],
+                         {'kind': 'argform', 'shape': shape, 'shift_form': fname})
+                # ft_utils functions with the same forms
+                ctx.hit('argform/ft_utils')
+                r2, e = safe(lambda: (reciprocal_grid(spc.grid, shift=form), reciprocal_grid(spc.grid, shift=canon_shift),
+                                      dft_preprocess_data(xc.asarray(), shift=form),
+                                      dft_preprocess_data(xc.asarray(), shift=canon_shift)))
+                if e is not None or r2[0] != r2[1] or not np.array_equal(r2[2], r2[3]):
+                    viol(ctx, 'argument form ft_utils shift={!r} ({})'.format(
+                        form if not isinstance(form, np.ndarray) else list(form), fname),
+                        'reciprocal_grid / dft_preprocess_data differ from the tuple form: {!r}'.format(e)[:300],
+                        {'kind': 'argform'})
+        for fname, kw, ckw in (('halfcomplex np.bool_', dict(halfcomplex=np.bool_(True)), dict(halfcomplex=True)),
+                               ('halfcomplex default', dict(), dict(halfcomplex=True)),
+                               ('impl upper-case', dict(impl='NumPy', halfcomplex=True), dict(impl='numpy', halfcomplex=True)),
+                               ('sign default', dict(impl='numpy'), dict(impl='numpy', sign='-'))):
+            ctx.case(('argform-misc', shape, fname))
+            ctx.hit('argform/ft/options')
+            kw.setdefault('impl', 'numpy')
+            ckw.setdefault('impl', 'numpy')
+            res, e = safe(lambda: (FT(spr, **kw), FT(spr, **ckw)))
+            pr = None if e is not None else _same_op(res[0], res[1], spr.element(_big(rng, shape, 'float64')))
+            if e is not None or pr is not None:
+                viol(ctx, 'argument form FT {} ndim={}'.format(fname, nd), '{}'.format(pr if e is None else repr(e))[:300],
+                     {'kind': 'argform'})
+        # ft_utils with axes forms
+        for canon in [(0,), (nd - 1,)]:
+            for fname, form in axes_forms(canon, nd):
+                ctx.case(('argform-utils', shape, canon, fname))
+                ctx.hit('argform/ft_utils')
+                r2, e = safe(lambda: (reciprocal_grid(spc.grid, shift=True, axes=form),
+                                      reciprocal_grid(spc.grid, shift=True, axes=canon),
+                                      dft_preprocess_data(xc.asarray(), shift=False, axes=form),
+                                      dft_preprocess_data(xc.asarray(), shift=False, axes=canon)))
+                if e is not None or r2[0] != r2[1] or not np.array_equal(r2[2], r2[3]):
+                    viol(ctx, 'argument form ft_utils axes={} ({}) canonical={}'.format(
+                        form if not isinstance(form, np.ndarray) else list(form), fname, canon),
+                        'reciprocal_grid / dft_preprocess_data differ from the tuple form: {!r}'.format(e)[:300],
+                        {'kind': 'argform'})
+        # documented equivalences
+        ctx.hit('equiv/inverse-inverse')
+        for cname, F in (('DFT', DFT(spc, impl='numpy')), ('FT', FT(spc, impl='numpy', shift=(True,) + (False,) * (nd - 1))),
+                         ('FT-hc', FT(spr, impl='numpy'))):
+            xin = F.domain.element(_big(rng, shape, str(F.domain.dtype)) / 4)
+            ctx.case(('equiv', cname, shape))
+            pr, e = safe(lambda: _same_op(F.inverse.inverse, F, xin))
+            if e is not None or pr is not None:
+                viol(ctx, 'equivalence {} inverse.inverse ndim={}'.format(cname, nd), str(pr if e is None else repr(e))[:300],
+                     {'kind': 'equiv'})
+            ctx.hit('equiv/adjoint-adjoint')
+            pr, e = safe(lambda: (_same_op(F.adjoint.adjoint, F, xin), _same_op(F.adjoint, F.inverse, F(xin))))
+            if e is not None or any(p is not None for p in pr):
+                viol(ctx, 'equivalence {} adjoint.adjoint / adjoint = inverse ndim={}'.format(cname, nd),
+                     str(pr if e is None else repr(e))[:300], {'kind': 'equiv'})
+        ctx.hit('equiv/axes-split')
+        for shifts in ((True,) * nd, tuple(i % 2 == 1 for i in range(nd))):
+            def split():
+                Fall = FT(spc, impl='numpy', shift=shifts)
+                y = xc
+                for a in range(nd):
+                    Fa = FT(y.space, axes=a, impl='numpy', shift=shifts[a])
+                    y = Fa(y)
+                return Fall(xc).asarray(), y.asarray(), Fall.range.grid, y.space.grid
+            r, e = safe(split)
+            ctx.case(('equiv-split', shape, shifts))
+            if e is not None or not np.max(np.abs(r[0] - r[1])) <= 1e-12 * max(1.0, float(np.max(np.abs(r[0])))) \
+                    or not r[2].approx_equals(r[3], atol=1e-12):
+                viol(ctx, 'equivalence FT axis by axis (axes=0, then 1, ...) vs all axes ndim={} shifts={}'.format(nd, shifts),
+                     '{!r}'.format(e if e is not None else float(np.max(np.abs(r[0] - r[1]))))[:300], {'kind': 'equiv'})
+        ctx.hit('equiv/sign-normalisation')
+        for sign in ('-', '+'):
+            for axes in (tuple(range(nd)), (0,)):
+                N = int(np.prod([shape[a] for a in axes]))
+                r, e = safe(lambda: (DFT(spc, axes=axes, sign=sign, impl='numpy')(xc).asarray(),
+                                     IDFT(spc, axes=axes, sign=sign, impl='numpy')(xc).asarray()))
+                ctx.case(('equiv-sign', shape, sign, axes))
+                if e is not None or not np.max(np.abs(r[0] - N * r[1])) <= 1e-12 * max(1.0, float(np.max(np.abs(r[0])))):
+                    viol(ctx, 'equivalence DFT(sign={s}) = prod(shape[axes]) * IDFT(sign={s}) axes={a} ndim={n}'.format(
+                        s=sign, a=axes, n=nd), '{!r}'.format(e if e is not None else float(np.max(np.abs(r[0] - N * r[1]))))[:300],
+                        {'kind': 'equiv'})
+    # wavelet argument forms
+    spw = odl.uniform_discr([0, 0], [1, 1], (8, 12))
+    xw = spw.element(_big(rng, (8, 12), 'float64') / 4)
+    for canon in ((0,), (1,), (0, 1)):
+        forms = axes_forms(canon, 2) + ([('None', None)] if canon == (0, 1) else [])
+        for fname, form in forms:
+            ctx.case(('argform-wavelet', canon, fname))
+            ctx.hit('argform/wavelet/axes')
+            res, e = safe(lambda: (WT(spw, 'db2', nlevels=1, pad_mode='symmetric', axes=form),
+                                   WT(spw, 'db2', nlevels=1, pad_mode='symmetric', axes=canon)))
+            pr = None if e is not None else _same_op(res[0], res[1], xw)
+            if e is None and pr is None:
+                pr = _same_op(res[0].inverse, res[1].inverse, res[1](xw))
+            if e is not None or pr is not None:
+                viol(ctx, 'argument form WaveletTransform axes={} ({}) canonical={}'.format(
+                    form if not isinstance(form, np.ndarray) else list(form), fname, canon),
+                    '{}'.format(pr if e is None else repr(e))[:300], {'kind': 'argform'})
+    for fname, kw, ckw in (('pad_mode upper-case', dict(pad_mode='Symmetric'), dict(pad_mode='symmetric')),
+                           ('pad_mode default', dict(), dict(pad_mode='constant', pad_const=0)),
+                           ('pad_const 0.0', dict(pad_mode='constant', pad_const=0.0), dict(pad_mode='constant')),
+                           ('nlevels np.int64', dict(nlevels=np.int64(2)), dict(nlevels=2)),
+                           ('nlevels None = max', dict(nlevels=None),
+                            dict(nlevels=pywt.dwtn_max_level((8, 12), 'db2'))),
+                           ('wavelet object', dict(wavelet=pywt.Wavelet('db2')), dict(wavelet='db2')),
+                           ('wavelet upper-case', dict(wavelet='DB2'), dict(wavelet='db2'))):
+        ctx.case(('argform-wavelet-misc', fname))
+        ctx.hit('argform/wavelet/options')
+        base = dict(wavelet='db2', nlevels=1)
+        res, e = safe(lambda: (WT(spw, **dict(base, **kw)), WT(spw, **dict(base, **ckw))))
+        pr = None if e is not None else _same_op(res[0], res[1], xw)
+        if e is not None or pr is not None:
+            viol(ctx, 'argument form WaveletTransform {}'.format(fname), '{}'.format(pr if e is None else repr(e))[:300],
+                 {'kind': 'argform'})
+
+
 def run_rejections(ctx, B):
     """Constructor rejection paths (malformed stream): forward sign '+' with halfcomplex, and a
     non-shifted halved axis.  ORACLE: the documented rule; correspondence: the model's status."""
@@ -1697,6 +1985,12 @@ EXPECTED_BRANCHES = [
     'size/numpy/oop', 'size/numpy/alias', 'size/pyfftw/oop', 'size/pyfftw/out', 'size/pyfftw/alias',
     'size/pyfftw/hc', 'size/numpy/hc', 'size/pyfftw/ft-planning_effort=measure',
     'history/dft/pyfftw', 'history/dft/numpy', 'history/ft/pyfftw',
+    'wavelet-family/haar', 'wavelet-family/db', 'wavelet-family/sym', 'wavelet-family/coif',
+    'wavelet-family/bior', 'wavelet-family/rbio', 'wavelet-family/dmey',
+    'wavelet-family/adjoint-exposed', 'wavelet-family/adjoint-not-exposed',
+    'argform/dft/axes', 'argform/ft/axes', 'argform/ft/shift', 'argform/ft/options', 'argform/ft_utils',
+    'argform/wavelet/axes', 'argform/wavelet/options', 'equiv/inverse-inverse', 'equiv/adjoint-adjoint',
+    'equiv/axes-split', 'equiv/sign-normalisation',
     'factors_nd/mixed-shift-equal-lengths', 'factors_nd/mixed-shift', 'factors_nd/uniform-shift',
     'ft/numpy/c2c/mixedshift', 'ft/pyfftw/c2c/mixedshift', 'ft/numpy/r2c/mixedshift',
     'ft/pyfftw/r2c/mixedshift', 'ft/numpy/hc/allshift', 'ft/pyfftw/hc/allshift',
@@ -1745,6 +2039,8 @@ def run(ctx):
     run_rejections(ctx, B)
     run_sizes(ctx, B)
     run_histories(ctx, B)
+    run_wavelet_families(ctx, B)
+    run_argforms(ctx, B)
     run_wavelets(ctx, B)
     B.flush()
     # generator coverage that must not get lost silently
@@ -1780,6 +2076,8 @@ def search(ctx, broken):
         run_padmode(ctx, B)
         run_sizes(ctx, B)
         run_histories(ctx, B)
+        run_wavelet_families(ctx, B)
+        run_argforms(ctx, B)
         B.lines, B.cbs = [], []
         run_wavelets(ctx, B, oracle_only=True)
     finally:
